@@ -339,6 +339,24 @@ pub fn run(ctx: &mut Ctx) {
         keep_case(ctx, &f, "keep-rand", &p, e, &t);
     }
 
+    // single characters beyond ASCII, alone and between specials: every scalar below U+1000, and every
+    // scalar up to U+20000 whose code point ends in the byte of one of the five specials (`"` 22, `&` 26,
+    // `'` 27, `<` 3C, `>` 3E) -- a non-ASCII character is never one of them
+    {
+        let upper = if thorough { 0x110000u32 } else { 0x20000 };
+        for cp in 0x80..upper {
+            let low = cp & 0xff;
+            if cp < 0x1000 || matches!(low, 0x22 | 0x26 | 0x27 | 0x3c | 0x3e) {
+                if let Some(c) = char::from_u32(cp) {
+                    esc_case(ctx, &f, "esc-char", &c.to_string());
+                    if cp % 7 == 0 {
+                        esc_case(ctx, &f, "esc-char", &format!("<{}&{}lt;\"", c, c));
+                    }
+                }
+            }
+        }
+    }
+
     // ---- url_encode / url_decode ----
     for_all_strings(URL_ALPHA, 4, |len, s| url_case(ctx, &f, &format!("url-exh{}", len), s));
     for_all_strings(URL_TOKENS, 3, |len, s| url_case(ctx, &f, &format!("url-tok{}", len), s));
